@@ -956,8 +956,8 @@ inline int Runner::main() {
   printf("%s tier=%s evaluations=%" PRIu64 " states=%" PRIu64 " nontrivial=%" PRIu64 " violations=%d exhaustive=%s wall=%.1fs\n",
          property.c_str(), tier.c_str(), ev, sh_->distinct_n[0].load(), sh_->distinct_n[1].load(), nviol,
          deadline_hit_ ? "false(deadline)" : "true", wall);
-  if (internal_errors_) return 2;
-  return nviol ? 1 : 0;
+  if (nviol) return 1;
+  return internal_errors_ ? 2 : 0;
 }
 
 }  // namespace mc
